@@ -49,6 +49,7 @@ type histStep struct {
 	AdvanceSec int64                 `json:"advance_sec"`       // virtual time that passes before this scan
 	OffsetNs   int64                 `json:"offset_ns"`         // sub-second part of the scan instant
 	Restart    bool                  `json:"restart,omitempty"` // a new Controller (and provider) over the same world
+	SleepMs    int64                 `json:"sleep_ms,omitempty"` // REAL time that passes before this scan (things stamped with the real clock)
 	Lag        []string              `json:"lag,omitempty"`     // nodes whose listed copy is NOT refreshed from the API server ("*": all)
 	Edits      []hEdit               `json:"edits,omitempty"`
 	Oracle     map[string]stepOracle `json:"oracle,omitempty"` // by node group name; absent = no failure
@@ -530,6 +531,9 @@ func runHistory(hs *histSpec) ([]histScan, error) {
 	out := []histScan{}
 	for k := range hs.Steps {
 		st := &hs.Steps[k]
+		if st.SleepMs > 0 {
+			time.Sleep(time.Duration(st.SleepMs) * time.Millisecond)
+		}
 		baseSec := time.Now().Unix()
 		// virtual time: the stored timestamps age by AdvanceSec, whatever the real clock did meanwhile
 		h.shift(st.AdvanceSec-(baseSec-prevBase), baseSec)
